@@ -115,12 +115,26 @@ def scenarios(draw):
         if draw(st.integers(0, 2)) == 0:
             faults.append({'a': 'fault', 'spec': {'on': 'list', 'plural': RES[r][1], 'do': 'latency', 'dt': draw(st.sampled_from([0.3, 2.0])), 'nth': 0, 'count': 100}})
     actions = draw(st.lists(env, min_size=3, max_size=14))
+    # an operator that serves two namespaces (not the whole cluster): every (kind, namespace) pair is listed on its own, and each
+    # listing can be slow on its own
+    namespaces = ['default', 'ns-b'] if draw(st.integers(0, 2)) == 0 else None
+    if namespaces:
+        for a in pre + actions:
+            if 'res' in a and draw(st.booleans()):
+                a['ns'] = 'ns-b'
+        faults = []
+        for r in ('x', 'y'):
+            for ns in namespaces:
+                if draw(st.integers(0, 2)) == 0:
+                    faults.append({'a': 'fault', 'spec': {'on': 'list', 'plural': RES[r][1], 'ns': ns, 'do': 'latency', 'dt': draw(st.sampled_from([0.3, 2.0])),
+                                                          'nth': 0, 'count': 100}})
     if draw(st.integers(0, 2)) == 0:
         pos = draw(st.integers(0, len(actions)))
         actions.insert(pos, {'a': 'downtime', 'how': draw(st.sampled_from(['stop', 'kill'])), 'down': draw(st.sampled_from([0.0, 1.0])), 'dt': 0.0,
                              'edits': draw(st.lists(st.one_of(create, edit, delete), max_size=3))})
     return {'seed': draw(st.integers(0, 9999)), 'spec': spec, 'warmup': draw(st.sampled_from([0.0, 0.1, 1.0, 4.0])),
-            'cluster': {'extra_resources': [{'gvp': list(KEY), 'kind': 'KopfWhy'}]},
+            'cluster': {'extra_resources': [{'gvp': list(KEY), 'kind': 'KopfWhy'}], 'namespaces': namespaces},
+            'op_kwargs': ({'clusterwide': False, 'namespaces': namespaces} if namespaces else {}),
             'pre': faults + pre, 'actions': actions}
 
 
@@ -134,7 +148,8 @@ class Run(cl.Run):
             return super().do(act)
         c = self.cluster
         rkey = RES[act['res']][0]
-        name = NAMES[act['res']][act['obj']] if 'obj' in act else None
+        ns = act.get('ns', 'default')
+        name = (NAMES[act['res']][act['obj']] + ('' if ns == 'default' else '-b')) if 'obj' in act else None
         t = self.sim.world.now
         eff = True
         self.n += 1
@@ -145,13 +160,13 @@ class Run(cl.Run):
                 b['metadata'] = {'labels': {'on': act['label']}}
             return b
         if a == 'icreate':
-            eff = c.create(rkey, 'default', name, body()) is not None
+            eff = c.create(rkey, ns, name, body()) is not None
         elif a == 'irecreate':
-            if (rkey, 'default', name) in c.objects:
-                c.delete(rkey, 'default', name, force=True)
-            c.create(rkey, 'default', name, body())
+            if (rkey, ns, name) in c.objects:
+                c.delete(rkey, ns, name, force=True)
+            c.create(rkey, ns, name, body())
         elif a == 'iedit':
-            eff = c.edit(rkey, 'default', name, lambda b: b.setdefault('spec', {}).update(idx=act['plan'], n=self.n)) is not None
+            eff = c.edit(rkey, ns, name, lambda b: b.setdefault('spec', {}).update(idx=act['plan'], n=self.n)) is not None
         elif a == 'ilabel':
             def fn(b):
                 labels = b['metadata'].setdefault('labels', {})
@@ -159,9 +174,9 @@ class Run(cl.Run):
                     labels.pop('on', None)
                 else:
                     labels['on'] = act['v']
-            eff = c.edit(rkey, 'default', name, fn) is not None
+            eff = c.edit(rkey, ns, name, fn) is not None
         elif a == 'idelete':
-            eff = c.delete(rkey, 'default', name) is not None
+            eff = c.delete(rkey, ns, name) is not None
         elif a == 'ibreak':
             c.break_watches(rkey=rkey, kind=act.get('kind', 'eof'))
         else:
@@ -386,7 +401,8 @@ def check(run, res):
         lists = {}
         for r in sim.cluster.requests:
             if r['client'] == name and r.get('listed') is not None and r['plural'] in indexed_plurals and r['outcome'] == 200 and r['t_done'] is not None:
-                lists.setdefault(r['plural'], r)
+                lists.setdefault((r['plural'], r['ns']), r)
+        served = run.sc['cluster'].get('namespaces') or [None]      # one listing per served namespace, or one for the whole cluster
         waited = False
         first_gated = None
         for c in calls:
@@ -394,11 +410,11 @@ def check(run, res):
                 continue
             if first_gated is None:
                 first_gated = c
-            for plural in indexed_plurals:
-                lst = lists.get(plural)
+            for plural, ns in [(pl, ns) for pl in sorted(indexed_plurals) for ns in served]:
+                lst = lists.get((plural, ns))
                 if lst is None or lst['t_done'] > c['t0'] + TOL:
-                    res.fail('C17/gate-before-listing', f'{name}: {c["kind"]} handler {c["hid"]} of {c["name"]} started at t={c["t0"]} before {plural} '
-                             f'were listed ({"never" if lst is None else lst["t_done"]})')
+                    res.fail('C17/gate-before-listing', f'{name}: {c["kind"]} handler {c["hid"]} of {c["name"]} started at t={c["t0"]} before {plural}'
+                             f'{"" if ns is None else " of namespace " + ns} were listed ({"never" if lst is None else lst["t_done"]})')
                     continue
                 for uid, rv in lst['listed']:
                     ok = any(p['uid'] == uid and p['complete'] and max(cc['seq1'] for cc in p['calls']) < c['seq'] for p in passes)
@@ -443,6 +459,13 @@ def run_case(scenario):
         try:
             run.run()
             run.quiesce(10.0)
+            # slow index functions over a backlog of events can take longer: wait on while indexing passes keep coming
+            for _ in range(20):
+                recent = [c for c in run.sim.trace if c.get('k') == 'call' and c['kind'] == 'index'
+                          and (c.get('t1') is None or c['t1'] > run.sim.world.now - 4.0)]
+                if not recent:
+                    break
+                run.advance(5.0)
         except Livelock as e:
             res.fail('C17/livelock', str(e))
         check(run, res)
